@@ -1,0 +1,560 @@
+//! Verification seam, compiled only with `--cfg ragc_verif` (never in shipped builds).
+//!
+//! Provides what a deterministic simulator needs to own the storage side of ragc:
+//! * `File`: a drop-in for the subset of `std::fs::File` that ragc uses. When a `World` is
+//!   installed on the current OS thread every path lives on an in-memory disk private to that
+//!   world and every call consults the world's fault plan; when no world is installed the
+//!   calls fall through to `std::fs::File`.
+//! * an event log, probe counters, tuning knobs and a logical clock that the simulator reads
+//!   and writes. Nothing in here draws randomness from anywhere but the seeds the simulator
+//!   puts into the `FaultPlan`, and nothing reads a real clock.
+
+use std::cell::RefCell;
+use std::collections::BTreeMap;
+use std::io::{self, Read, Seek, SeekFrom, Write};
+use std::path::Path;
+use std::sync::atomic::{AtomicU64, Ordering};
+use std::sync::{Arc, Mutex};
+
+/// Tuning knobs that must never change results (except bytes of zstd-level dependent streams).
+#[derive(Clone, Debug)]
+pub struct Knobs {
+    /// Capacity of the archive writer's `BufWriter` (shipped value: 4 MiB).
+    pub bufwriter_cap: usize,
+    /// Override for the zstd level of collection metadata streams (shipped: 19/18/19).
+    pub meta_zstd_level: Option<i32>,
+}
+
+impl Default for Knobs {
+    fn default() -> Self {
+        Knobs {
+            bufwriter_cap: 4 * 1024 * 1024,
+            meta_zstd_level: None,
+        }
+    }
+}
+
+/// One record of the world's event log. `seq` is the global order of records.
+#[derive(Clone, Debug, PartialEq, Eq)]
+pub struct Event {
+    pub seq: u64,
+    pub task: u32,
+    pub kind: &'static str,
+    pub a: u64,
+    pub b: u64,
+    pub c: u64,
+}
+
+/// Fault plan consulted by every simulated file call.
+#[derive(Clone, Debug, Default)]
+pub struct FaultPlan {
+    /// Paths ending with this string are the target of the hard faults below ("" = none).
+    pub target: String,
+    /// First write reaching this byte offset of the target is cut there; later writes fail.
+    pub write_fail_at_offset: Option<u64>,
+    /// The n-th (0-based) write call on the target fails (sticky afterwards).
+    pub write_fail_at_call: Option<u64>,
+    /// The n-th (0-based) flush call on the target fails.
+    pub flush_fail_at_call: Option<u64>,
+    /// raw OS error used for the hard write/flush faults (28 ENOSPC, 27 EFBIG, 5 EIO).
+    pub write_errno: i32,
+    /// Reads of the target at or beyond this offset fail with EIO.
+    pub read_fail_at_offset: Option<u64>,
+    /// Benign faults (result must be unchanged): percentages 0..=100 per call, all sim files.
+    pub short_write_pct: u8,
+    pub eintr_write_pct: u8,
+    pub short_read_pct: u8,
+    pub eintr_read_pct: u8,
+    /// PRNG state for the benign faults (SplitMix64); set by the simulator from its fault seed.
+    pub rng: u64,
+    // runtime counters
+    pub write_calls: u64,
+    pub flush_calls: u64,
+    pub write_failed: bool,
+}
+
+impl FaultPlan {
+    fn next(&mut self) -> u64 {
+        self.rng = self.rng.wrapping_add(0x9E37_79B9_7F4A_7C15);
+        let mut z = self.rng;
+        z = (z ^ (z >> 30)).wrapping_mul(0xBF58_476D_1CE4_E5B9);
+        z = (z ^ (z >> 27)).wrapping_mul(0x94D0_49BB_1331_11EB);
+        z ^ (z >> 31)
+    }
+    fn roll(&mut self, pct: u8) -> bool {
+        pct > 0 && (self.next() % 100) < pct as u64
+    }
+}
+
+/// Everything one simulated run owns.
+pub struct World {
+    pub files: BTreeMap<String, Arc<Mutex<Vec<u8>>>>,
+    pub knobs: Knobs,
+    pub faults: FaultPlan,
+    pub events: Vec<Event>,
+    pub log_events: bool,
+    pub probes: BTreeMap<&'static str, u64>,
+    pub fault_fired: BTreeMap<&'static str, u64>,
+    /// Logical clock in milliseconds; advanced only by hooked sleeps.
+    pub clock_ms: u64,
+    pub io_calls: u64,
+    pub bytes_read: u64,
+    pub bytes_written: u64,
+    /// Seeks issued on a handle opened for writing, and writes not at end-of-file: both must
+    /// stay 0 for "prefixes are exactly the crash states" to hold.
+    pub writer_seeks: u64,
+    pub non_append_writes: u64,
+    /// (path, offset, len) of every successful write call, in order.
+    pub write_log: Vec<(String, u64, u32)>,
+    pub log_writes: bool,
+    /// Identity of the running task (set by the simulator; 0 outside a scheduler).
+    pub task_id: fn() -> u32,
+    /// Called before every simulated file operation when set (makes I/O a scheduling point).
+    pub io_yield: Option<fn()>,
+    /// Largest single read request seen (bytes); used by the garbage-sized-buffer oracle.
+    pub max_read_request: u64,
+}
+
+fn task_zero() -> u32 {
+    0
+}
+
+impl World {
+    pub fn new() -> Self {
+        World {
+            files: BTreeMap::new(),
+            knobs: Knobs::default(),
+            faults: FaultPlan::default(),
+            events: Vec::new(),
+            log_events: false,
+            probes: BTreeMap::new(),
+            fault_fired: BTreeMap::new(),
+            clock_ms: 0,
+            io_calls: 0,
+            bytes_read: 0,
+            bytes_written: 0,
+            writer_seeks: 0,
+            non_append_writes: 0,
+            write_log: Vec::new(),
+            log_writes: false,
+            task_id: task_zero,
+            io_yield: None,
+            max_read_request: 0,
+        }
+    }
+
+    pub fn put_file(&mut self, path: &str, data: Vec<u8>) {
+        self.files
+            .insert(path.to_string(), Arc::new(Mutex::new(data)));
+    }
+
+    pub fn get_file(&self, path: &str) -> Option<Vec<u8>> {
+        self.files.get(path).map(|d| d.lock().unwrap().clone())
+    }
+}
+
+impl Default for World {
+    fn default() -> Self {
+        Self::new()
+    }
+}
+
+thread_local! {
+    static WORLD: RefCell<Option<World>> = const { RefCell::new(None) };
+}
+
+/// Install a world on this OS thread (returns the previous one, if any).
+pub fn install(world: World) -> Option<World> {
+    WORLD.with(|w| w.borrow_mut().replace(world))
+}
+
+/// Remove and return the world of this OS thread.
+pub fn uninstall() -> Option<World> {
+    WORLD.with(|w| w.borrow_mut().take())
+}
+
+/// Run `f` on the installed world; `None` when no world is installed.
+pub fn with<R>(f: impl FnOnce(&mut World) -> R) -> Option<R> {
+    WORLD.with(|w| match w.try_borrow_mut() {
+        Ok(mut g) => g.as_mut().map(f),
+        Err(_) => None,
+    })
+}
+
+pub fn active() -> bool {
+    WORLD.with(|w| w.try_borrow().map(|g| g.is_some()).unwrap_or(false))
+}
+
+/// Append a record to the event log (no-op without a world or with logging off).
+pub fn event(kind: &'static str, a: u64, b: u64, c: u64) {
+    with(|w| {
+        if w.log_events {
+            let seq = w.events.len() as u64;
+            let task = (w.task_id)();
+            w.events.push(Event {
+                seq,
+                task,
+                kind,
+                a,
+                b,
+                c,
+            });
+        }
+    });
+}
+
+/// Count a rare-condition probe.
+pub fn probe(name: &'static str) {
+    with(|w| *w.probes.entry(name).or_insert(0) += 1);
+}
+
+fn fired(w: &mut World, name: &'static str) {
+    *w.fault_fired.entry(name).or_insert(0) += 1;
+}
+
+/// Advance the logical clock (called by the hooked sleeps).
+pub fn advance_clock(ms: u64) {
+    with(|w| w.clock_ms += ms);
+}
+
+pub fn bufwriter_cap() -> usize {
+    with(|w| w.knobs.bufwriter_cap).unwrap_or(4 * 1024 * 1024)
+}
+
+/// Metadata zstd level: the knob when set, else the shipped level.
+pub fn meta_zstd_level(shipped: i32) -> i32 {
+    with(|w| w.knobs.meta_zstd_level)
+        .flatten()
+        .unwrap_or(shipped)
+}
+
+fn path_key<P: AsRef<Path>>(p: P) -> String {
+    p.as_ref().to_string_lossy().to_string()
+}
+
+fn io_point() {
+    let y = with(|w| {
+        w.io_calls += 1;
+        w.io_yield
+    })
+    .flatten();
+    if let Some(f) = y {
+        f();
+    }
+}
+
+/// Subset of `std::fs::Metadata` that ragc uses.
+pub struct Metadata {
+    len: u64,
+}
+
+impl Metadata {
+    #[allow(clippy::len_without_is_empty)]
+    pub fn len(&self) -> u64 {
+        self.len
+    }
+}
+
+struct SimHandle {
+    path: String,
+    data: Arc<Mutex<Vec<u8>>>,
+    /// Shared with `try_clone`d handles (POSIX dup semantics).
+    pos: Arc<AtomicU64>,
+    writable: bool,
+    is_target: bool,
+}
+
+enum Inner {
+    Real(std::fs::File),
+    Sim(SimHandle),
+}
+
+/// Drop-in for the subset of `std::fs::File` used by ragc.
+pub struct File(Inner);
+
+impl File {
+    pub fn open<P: AsRef<Path>>(path: P) -> io::Result<File> {
+        if !active() {
+            return std::fs::File::open(path).map(|f| File(Inner::Real(f)));
+        }
+        io_point();
+        let key = path_key(path);
+        let found = with(|w| {
+            let t = !w.faults.target.is_empty() && key.ends_with(&w.faults.target);
+            w.files.get(&key).cloned().map(|d| (d, t))
+        })
+        .flatten();
+        match found {
+            Some((data, is_target)) => Ok(File(Inner::Sim(SimHandle {
+                path: key,
+                data,
+                pos: Arc::new(AtomicU64::new(0)),
+                writable: false,
+                is_target,
+            }))),
+            None => Err(io::Error::new(
+                io::ErrorKind::NotFound,
+                format!("sim disk: no such file: {key}"),
+            )),
+        }
+    }
+
+    pub fn create<P: AsRef<Path>>(path: P) -> io::Result<File> {
+        if !active() {
+            return std::fs::File::create(path).map(|f| File(Inner::Real(f)));
+        }
+        io_point();
+        let key = path_key(path);
+        let (data, is_target) = with(|w| {
+            let t = !w.faults.target.is_empty() && key.ends_with(&w.faults.target);
+            let d = w
+                .files
+                .entry(key.clone())
+                .or_insert_with(|| Arc::new(Mutex::new(Vec::new())))
+                .clone();
+            // O_TRUNC
+            d.lock().unwrap().clear();
+            (d, t)
+        })
+        .unwrap();
+        Ok(File(Inner::Sim(SimHandle {
+            path: key,
+            data,
+            pos: Arc::new(AtomicU64::new(0)),
+            writable: true,
+            is_target,
+        })))
+    }
+
+    pub fn try_clone(&self) -> io::Result<File> {
+        match &self.0 {
+            Inner::Real(f) => f.try_clone().map(|f| File(Inner::Real(f))),
+            Inner::Sim(h) => Ok(File(Inner::Sim(SimHandle {
+                path: h.path.clone(),
+                data: Arc::clone(&h.data),
+                pos: Arc::clone(&h.pos),
+                writable: h.writable,
+                is_target: h.is_target,
+            }))),
+        }
+    }
+
+    pub fn metadata(&self) -> io::Result<Metadata> {
+        match &self.0 {
+            Inner::Real(f) => f.metadata().map(|m| Metadata { len: m.len() }),
+            Inner::Sim(h) => {
+                io_point();
+                Ok(Metadata {
+                    len: h.data.lock().unwrap().len() as u64,
+                })
+            }
+        }
+    }
+}
+
+fn os_err(errno: i32) -> io::Error {
+    io::Error::from_raw_os_error(if errno == 0 { 5 } else { errno })
+}
+
+impl Read for File {
+    fn read(&mut self, buf: &mut [u8]) -> io::Result<usize> {
+        let h = match &mut self.0 {
+            Inner::Real(f) => return f.read(buf),
+            Inner::Sim(h) => h,
+        };
+        io_point();
+        let pos = h.pos.load(Ordering::SeqCst);
+        let is_target = h.is_target;
+        let want = buf.len();
+        // Decide faults first (one world borrow), then copy.
+        enum D {
+            Eintr,
+            Eio,
+            Limit(usize),
+        }
+        let d = with(|w| {
+            if want as u64 > w.max_read_request {
+                w.max_read_request = want as u64;
+            }
+            if is_target {
+                if let Some(off) = w.faults.read_fail_at_offset {
+                    if pos >= off {
+                        fired(w, "read_err");
+                        return D::Eio;
+                    }
+                    let room = (off - pos) as usize;
+                    if want > room {
+                        return D::Limit(room);
+                    }
+                }
+            }
+            if want > 0 && w.faults.roll(w.faults.eintr_read_pct) {
+                fired(w, "eintr_r");
+                return D::Eintr;
+            }
+            if want > 1 && w.faults.roll(w.faults.short_read_pct) {
+                let n = 1 + (w.faults.next() as usize) % (want - 1);
+                fired(w, "short_read");
+                return D::Limit(n);
+            }
+            D::Limit(want)
+        })
+        .unwrap_or(D::Limit(want));
+        let limit = match d {
+            D::Eintr => return Err(io::Error::new(io::ErrorKind::Interrupted, "sim EINTR")),
+            D::Eio => return Err(os_err(5)),
+            D::Limit(n) => n,
+        };
+        let data = h.data.lock().unwrap();
+        let len = data.len() as u64;
+        if pos >= len {
+            return Ok(0);
+        }
+        let n = limit.min((len - pos) as usize);
+        buf[..n].copy_from_slice(&data[pos as usize..pos as usize + n]);
+        drop(data);
+        h.pos.store(pos + n as u64, Ordering::SeqCst);
+        with(|w| w.bytes_read += n as u64);
+        Ok(n)
+    }
+}
+
+impl Write for File {
+    fn write(&mut self, buf: &[u8]) -> io::Result<usize> {
+        let h = match &mut self.0 {
+            Inner::Real(f) => return f.write(buf),
+            Inner::Sim(h) => h,
+        };
+        io_point();
+        if !h.writable {
+            return Err(io::Error::new(
+                io::ErrorKind::PermissionDenied,
+                "sim disk: handle not open for writing",
+            ));
+        }
+        let pos = h.pos.load(Ordering::SeqCst);
+        let is_target = h.is_target;
+        let want = buf.len();
+        enum D {
+            Eintr,
+            Fail(i32),
+            Limit(usize),
+        }
+        let d = with(|w| {
+            if is_target {
+                let call = w.faults.write_calls;
+                w.faults.write_calls += 1;
+                if w.faults.write_failed {
+                    return D::Fail(w.faults.write_errno);
+                }
+                if w.faults.write_fail_at_call == Some(call) {
+                    w.faults.write_failed = true;
+                    fired(w, "eio_write_call");
+                    return D::Fail(w.faults.write_errno);
+                }
+                if let Some(off) = w.faults.write_fail_at_offset {
+                    if pos >= off {
+                        w.faults.write_failed = true;
+                        fired(w, "write_err_at_offset");
+                        return D::Fail(w.faults.write_errno);
+                    }
+                    let room = (off - pos) as usize;
+                    if want > room {
+                        fired(w, "write_cut_at_offset");
+                        return D::Limit(room);
+                    }
+                }
+            }
+            if want > 0 && w.faults.roll(w.faults.eintr_write_pct) {
+                fired(w, "eintr_w");
+                return D::Eintr;
+            }
+            if want > 1 && w.faults.roll(w.faults.short_write_pct) {
+                let n = 1 + (w.faults.next() as usize) % (want - 1);
+                fired(w, "short_write");
+                return D::Limit(n);
+            }
+            D::Limit(want)
+        })
+        .unwrap_or(D::Limit(want));
+        let n = match d {
+            D::Eintr => return Err(io::Error::new(io::ErrorKind::Interrupted, "sim EINTR")),
+            D::Fail(e) => return Err(os_err(e)),
+            D::Limit(n) => n,
+        };
+        let mut data = h.data.lock().unwrap();
+        let len = data.len() as u64;
+        let append = pos == len;
+        if pos > len {
+            data.resize(pos as usize, 0);
+        }
+        let p = pos as usize;
+        let overlap = n.min(data.len() - p);
+        data[p..p + overlap].copy_from_slice(&buf[..overlap]);
+        data.extend_from_slice(&buf[overlap..n]);
+        drop(data);
+        h.pos.store(pos + n as u64, Ordering::SeqCst);
+        let path = &h.path;
+        with(|w| {
+            w.bytes_written += n as u64;
+            if !append {
+                w.non_append_writes += 1;
+            }
+            if w.log_writes {
+                w.write_log.push((path.clone(), pos, n as u32));
+            }
+        });
+        Ok(n)
+    }
+
+    fn flush(&mut self) -> io::Result<()> {
+        let h = match &mut self.0 {
+            Inner::Real(f) => return f.flush(),
+            Inner::Sim(h) => h,
+        };
+        io_point();
+        let is_target = h.is_target;
+        let fail = with(|w| {
+            if is_target {
+                let call = w.faults.flush_calls;
+                w.faults.flush_calls += 1;
+                if w.faults.flush_fail_at_call == Some(call) {
+                    fired(w, "eio_flush");
+                    return Some(w.faults.write_errno);
+                }
+            }
+            None
+        })
+        .flatten();
+        match fail {
+            Some(e) => Err(os_err(e)),
+            None => Ok(()),
+        }
+    }
+}
+
+impl Seek for File {
+    fn seek(&mut self, to: SeekFrom) -> io::Result<u64> {
+        let h = match &mut self.0 {
+            Inner::Real(f) => return f.seek(to),
+            Inner::Sim(h) => h,
+        };
+        io_point();
+        if h.writable {
+            with(|w| w.writer_seeks += 1);
+        }
+        let len = h.data.lock().unwrap().len() as i128;
+        let cur = h.pos.load(Ordering::SeqCst) as i128;
+        let target: i128 = match to {
+            SeekFrom::Start(o) => o as i128,
+            SeekFrom::End(d) => len + d as i128,
+            SeekFrom::Current(d) => cur + d as i128,
+        };
+        // lseek(2): EINVAL for a negative resulting offset or one beyond off_t.
+        if target < 0 || target > i64::MAX as i128 {
+            return Err(io::Error::from_raw_os_error(22));
+        }
+        h.pos.store(target as u64, Ordering::SeqCst);
+        Ok(target as u64)
+    }
+}
